@@ -159,6 +159,17 @@ def build(shape, x, dcf_path, nested_x="same"):
         inner.add_argument("--w.k", type=List[int])
         p.add_argument("--inner", action=ActionParser(parser=inner))
         p.add_argument("--a", type=int, default=1)
+    elif shape == "subpaths":
+        p.add_argument("--el", type=List[int], enable_path=True)
+        p.add_argument("--ed", type=Dict[str, int], enable_path=True)
+        p.add_argument("--ecal", type=calendar.Calendar, enable_path=True)
+        p.add_argument("--edc", type=DC, enable_path=True)
+        p.add_argument("--eos", type=Optional[str], enable_path=True)
+        p.add_argument("--eus", type=Union[int, str], enable_path=True)
+        p.add_argument("--wcal", type=calendar.Calendar,
+                       default={"class_path": "calendar.TextCalendar", "init_args": {"firstweekday": 2}})
+        p.add_argument("--us", type=Union[int, str])
+        p.add_argument("--a", type=int, default=1)
     else:
         raise ValueError("unknown shape %r" % shape)
     return p
@@ -246,9 +257,25 @@ def to_bytes(text):
         return text.encode("utf-8", errors="surrogatepass")
 
 
-def call(parser, entry, inp):
+def call(parser, entry, inp, case=None):
     if entry == "parse_args":
-        return parser.parse_args(list(inp))
+        kw = {}
+        if case is not None and case.get("namespace") is not None:
+            ns = Namespace()
+            for k, i in case["namespace"].items():
+                try:
+                    ns[k] = decode(i)
+                except Exception:  # noqa: a key a Namespace cannot hold: leave it out (the harness builds the input, not the parser)
+                    pass
+            kw["namespace"] = ns
+        if case is not None and case.get("argv_via") == "sys" and all(isinstance(a, str) for a in inp):
+            saved = sys.argv
+            sys.argv = ["prog"] + list(inp)
+            try:
+                return parser.parse_args(**kw)
+            finally:
+                sys.argv = saved
+        return parser.parse_args(list(inp), **kw)
     if entry == "parse_string":
         return parser.parse_string(inp)
     if entry == "parse_object":
@@ -260,7 +287,64 @@ def call(parser, entry, inp):
     raise ValueError("unknown entry %r" % entry)
 
 
+def heap_of(value):
+    """the loaded value as a heap: node id = order of first visit (object identity for containers, one node per scalar
+    occurrence), kind 0 dict / 1 list / 2 tuple / 3 anything else, items = ids of the values of a dict / the items of a list or tuple"""
+    ids, nodes, todo = {}, [], []
+
+    def nid(v):
+        if isinstance(v, (dict, list, tuple)):
+            if id(v) not in ids:
+                ids[id(v)] = len(nodes)
+                nodes.append([0 if isinstance(v, dict) else 1 if isinstance(v, list) else 2, None])
+                todo.append(v)
+            return ids[id(v)]
+        nodes.append([3, []])
+        return len(nodes) - 1
+
+    root = nid(value)
+    while todo:
+        v = todo.pop()
+        me = ids[id(v)]
+        nodes[me][1] = [nid(i) for i in (v.values() if isinstance(v, dict) else v)]
+        if len(nodes) > 400:
+            return None, None
+    return nodes, root
+
+
+def run_cycle_check(case):
+    """one call of the real yaml_load on a text PyYAML itself can load: is the value refused (YAMLError) or handed on?"""
+    import yaml
+    from jsonargparse import _loaders_dumpers as LD
+
+    text = case["input"]
+    signal.alarm(LIMIT)
+    try:
+        try:
+            value = yaml.load(text, Loader=LD.get_yaml_default_loader())
+        except Exception:  # noqa: not loadable at all: nothing to ask the cycle check
+            return {"k": "ret"}
+        heap, root = heap_of(value)
+        if heap is None:
+            return {"k": "ret"}
+        try:
+            LD.yaml_load(text)
+            rejected = False
+        except yaml.YAMLError:
+            rejected = True
+        return {"k": "cyc", "heap": heap, "root": root, "rejected": rejected}
+    except Hung:
+        return {"k": "hung"}
+    except BaseException as e:  # noqa: B036
+        t = type(e)
+        return {"k": "exc", "cls": "%s.%s" % (t.__module__, t.__qualname__), "argerr": False, "frames": frames_of(e), "msg": str(e)[:160]}
+    finally:
+        signal.alarm(0)
+
+
 def run_case(case, base):
+    if case["entry"] == "cycle_check":
+        return run_cycle_check(case)
     work = tempfile.mkdtemp(prefix="c", dir=base)
     os.chdir(work)
     with open("good.yaml", "w") as f:
@@ -275,6 +359,14 @@ def run_case(case, base):
         f.write("")
     with open("list.yaml", "w") as f:
         f.write("- 1\n- 2\n")
+    with open("dict.yaml", "w") as f:
+        f.write("k: 1\n")
+    with open("cal.yaml", "w") as f:
+        f.write("class_path: calendar.TextCalendar\ninit_args:\n  firstweekday: 2\n")
+    with open("dc.yaml", "w") as f:
+        f.write("x: 3\n")
+    with open("pairs.yaml", "w") as f:
+        f.write("k: &x !!pairs [k: *x]\n")
     os.mkdir("d")
     for name, text in (case.get("files") or {}).items():
         with open(name, "wb") as f:
@@ -308,7 +400,7 @@ def run_case(case, base):
                     shutil.rmtree(work, ignore_errors=True)   # the process keeps running in a directory that no longer exists
                 signal.alarm(LIMIT)
                 out.seek(0), out.truncate(), err.seek(0), err.truncate()
-                call(parser, case["entry"], inp)
+                call(parser, case["entry"], inp, case)
             obs = {"k": "ret"}
         finally:
             signal.alarm(0)
